@@ -637,8 +637,9 @@ func (l *IPFSLog) Join(otherLog iface.IPFSLog, size int) (iface.IPFSLog, error) 
 	// only entries that were admitted to the log can be heads, or hide one
 	admittedHeads := entry.NewOrderedMap()
 	for _, e := range otherHeads {
-		if _, ok := l.Entries.Get(e.GetHash().String()); ok {
-			admittedHeads.Set(e.GetHash().String(), e)
+		// the log's own object: the other log's object under that hash was only verified if it was new
+		if own, ok := l.Entries.Get(e.GetHash().String()); ok {
+			admittedHeads.Set(e.GetHash().String(), own)
 		}
 	}
 
